@@ -88,8 +88,30 @@ def enum_variants(src, enum):
     return vs
 
 
+def str_to_arms_table_form(src, body, c):
+    """name table written as a constant array of ("name", Enum::Variant) pairs, looked up by equality on the lower-cased
+    argument (see names2coq.str_to_table_form)"""
+    if len(re.findall(r'\.\s*to_lowercase\s*\(', body)) != 1 or not re.search(r'\.\s*iter\s*\(\s*\)\s*\.\s*find\s*\(', body) \
+            or '==' not in body or 'panic!' not in body:
+        raise ShapeError('%s: expected `match <arg>.to_lowercase().as_str() {` or a table looked up with .iter().find(.. == ..)' % c['str_to'])
+    names = list(dict.fromkeys(re.findall(r'\b([A-Z][A-Z0-9_]{2,})\b', body)))
+    if len(names) != 1:
+        raise ShapeError('%s: expected exactly one constant table in the body, found %r' % (c['str_to'], names))
+    m = re.search(r'\bconst\s+%s\s*:[^=]*=\s*&?\s*\[(.*?)\]\s*;' % names[0], strip_line_comments(src), flags=re.S)
+    if not m:
+        raise ShapeError('%s: declaration of the constant %s not found' % (c['str_to'], names[0]))
+    tb = m.group(1)
+    arms = re.findall(r'\(\s*"([^"\\]*)"\s*,\s*%s\s*::\s*(\w+)\s*\)' % c['enum'], tb)
+    n_lit = len(re.findall(r'"[^"\\]*"', tb))
+    if not arms or n_lit != len(arms):
+        raise ShapeError('%s: %s holds %d string literals but %d pairs of the shape ("name", %s::V)' % (c['str_to'], names[0], n_lit, len(arms), c['enum']))
+    return arms
+
+
 def str_to_arms(src, c):
     body = fn_body(strip_line_comments(src), c['str_to'])
+    if not re.search(r'\bmatch\b', body):
+        return str_to_arms_table_form(src, body, c)
     if not re.search(r'match\s+\w+\s*\.\s*to_lowercase\s*\(\s*\)\s*\.\s*as_str\s*\(\s*\)\s*\{', body):
         raise ShapeError('%s: expected `match <arg>.to_lowercase().as_str() {`' % c['str_to'])
     arms = re.findall(r'"([^"\\]*)"\s*=>\s*%s\s*::\s*(\w+)\s*,' % c['enum'], body)
